@@ -116,9 +116,16 @@ for a in sys.argv[1:]:
 """
 
 
-def ensure_home(repo_dir=None, quiet=False):
+def ensure_home(repo_dir=None, quiet=False, warm=True):
     """Return the scratch HOME for the tree under test; create and warm it serially per file if needed."""
     repo_dir = repo_dir or repo()
+    if not warm:
+        # checks that never load a machine model (parsers, register relation) only need the directory
+        home = os.path.join(SCRATCH, "home-" + code_hash(repo_dir))
+        if not os.path.isdir(os.path.join(home, ".osaca", "data")):
+            os.makedirs(SCRATCH, exist_ok=True)
+            make_home(home, repo_dir)
+        return home
     os.makedirs(SCRATCH, exist_ok=True)
     ch = code_hash(repo_dir)
     home = os.path.join(SCRATCH, "home-" + ch)
